@@ -30,11 +30,30 @@ def _pki(proto, role):
     return _PKI[k]
 
 
+def _server_cafile(proto, seed):
+    """trust list of a server that asks for a client certificate: seeds 0/1 only the client's root; seeds 2/3 a second, unrelated root as
+    well (before / after it), so that the CertificateRequest carries a CA name that plays no part in the client's choice"""
+    if seed < 2:
+        return None
+    k = (proto, "cafile2", seed)
+    if k not in _PKI:
+        own = open(_pki(proto, "client")["root"], "rb").read()
+        other_ch = pki.Chain("c10-unrelated-%s" % proto, n_inter=0)
+        from vlib.ref import x509 as X
+        other = X.pem("CERTIFICATE", other_ch.certs["root"])
+        d = os.path.join(B.BUILD, "tmp", "c10_%d" % os.getpid())
+        os.makedirs(d, exist_ok=True)
+        pth = os.path.join(d, "ca2_%s_%d.pem" % (proto, seed))
+        open(pth, "wb").write(own + other if seed == 2 else other + own)
+        _PKI[k] = pth.encode()
+    return _PKI[k]
+
+
 def _run(ctx, proto, mutual, seed, hook, quiet_ms=400, after=None):
     """after(session, hc, hs) -> extra result, called before the session is torn down"""
     shim().freeze_time(pki.T0)
     s = net.Session(ctx.variant, proto, _pki(proto, "server"), client_files=_pki(proto, "client") if mutual else None, mutual=mutual,
-                    hook=hook, quiet_ms=quiet_ms, seed=seed)
+                    hook=hook, quiet_ms=quiet_ms, seed=seed, server_cafile=_server_cafile(proto, seed) if mutual else None)
     try:
         rc, rs = s.start()
         if rc[1] != "ok" or rs[1] != "ok":
